@@ -66,7 +66,8 @@ func WorkerMain(args []string) int {
 	stride := fs.Uint64("stride", 1, "")
 	offset := fs.Uint64("offset", 0, "")
 	maxSec := fs.Int("max-seconds", 0, "")
-	digestsN := fs.Uint64("digests", 0, "record digests for indices below this")
+	digestsN := fs.Uint64("digests", 0, "record digests of the first N plans this process executes")
+	limit := fs.Uint64("limit", 0, "stop after this many plans (0 = no limit)")
 	replays := fs.String("replays", "", "directory for minimised plans")
 	sigFile := fs.String("sigfile", "", "write the distinct non-trivial signatures here (binary, 8 bytes each) instead of returning them inline")
 	noShrink := fs.Bool("no-shrink", false, "")
@@ -86,6 +87,9 @@ func WorkerMain(args []string) int {
 	for i := *from + *offset; i < *to; i += *stride {
 		if *maxSec > 0 && i%16 == 0 && time.Since(start) > time.Duration(*maxSec)*time.Second {
 			out.TimedOut = true
+			break
+		}
+		if *limit > 0 && uint64(out.Plans) >= *limit {
 			break
 		}
 		plan := prop.Generate(PropSeed(*seed, *propID, i), *tier)
@@ -129,7 +133,7 @@ func WorkerMain(args []string) int {
 				out.Probes[k] += v
 			}
 		}
-		if i < *digestsN {
+		if uint64(out.Plans) <= *digestsN {
 			out.Digests[strconv.FormatUint(i, 10)] = res.Digest
 		}
 		if len(out.Samples) < 2 && res.NonTrivial {
@@ -425,7 +429,7 @@ func BatchMain(args []string) int {
 	replays := fs.String("replays", "", "")
 	known := fs.String("known", "", "")
 	extra := fs.String("extra", "", "JSON object merged into evidence coverage (rewrite counts etc.)")
-	selfN := fs.Uint64("selftest", 0, "determinism self-test: re-run this many plans in other processes (0 = 16 quick / 208 thorough)")
+	selfN := fs.Uint64("selftest", 0, "determinism self-test: re-run this many plans in other processes (0 = 32 quick / 208 thorough; 16 per re-run process)")
 	_ = fs.Parse(args)
 	t0 := time.Now()
 	prop := Lookup(*propID)
@@ -452,7 +456,7 @@ func BatchMain(args []string) int {
 		*workers = int(*n)
 	}
 	if *selfN == 0 {
-		*selfN = 16
+		*selfN = 32
 		if *tier == "thorough" {
 			*selfN = 208
 		}
@@ -495,7 +499,7 @@ func BatchMain(args []string) int {
 		return r
 	}
 	common := []string{"-prop", *propID, "-tier", *tier, "-seed", fmt.Sprint(*seed), "-from", "0", "-to", fmt.Sprint(*n),
-		"-stride", fmt.Sprint(*workers), "-max-seconds", fmt.Sprint(*maxSec), "-digests", fmt.Sprint(*selfN)}
+		"-stride", fmt.Sprint(*workers), "-max-seconds", fmt.Sprint(*maxSec), "-digests", "16"}
 	if *replays != "" {
 		common = append(common, "-replays", *replays)
 	}
@@ -617,38 +621,42 @@ func BatchMain(args []string) int {
 	selfProcs := 0
 	selfFail := ""
 	if *selfN > 0 {
-		// each re-run process takes a slice of 16 plans: 2 processes per batch in the quick tier, 26 in the thorough tier
+		// Each re-run process repeats the FIRST 16 plans of one worker job (same offset and stride),
+		// so that it has exactly the process history the original had: a legitimate process-level
+		// cache in the code under test must not look like nondeterminism. 2 jobs in the quick tier,
+		// 13 in the thorough tier, each at GOMAXPROCS 4 and 16.
 		type job struct {
-			gmp      int
-			from, to uint64
+			gmp    int
+			offset int
 		}
-		var jobs []job
+		var sjobs []job
+		njobs := int((*selfN + 15) / 16)
+		if njobs > jobs {
+			njobs = jobs
+		}
 		for _, gmp := range []int{4, 16} {
-			for from := uint64(0); from < *selfN; from += 16 {
-				to := from + 16
-				if to > *selfN {
-					to = *selfN
-				}
-				jobs = append(jobs, job{gmp, from, to})
+			for j := 0; j < njobs; j++ {
+				sjobs = append(sjobs, job{gmp, j})
 			}
 		}
-		outs := make([]wres, len(jobs))
-		sem := make(chan struct{}, *workers)
+		outs := make([]wres, len(sjobs))
+		sem2 := make(chan struct{}, *workers)
 		fin := make(chan int)
-		for ji, j := range jobs {
+		for ji, j := range sjobs {
 			go func(ji int, j job) {
-				sem <- struct{}{}
-				outs[ji] = runWorker(j.gmp, "-prop", *propID, "-tier", *tier, "-seed", fmt.Sprint(*seed), "-from", fmt.Sprint(j.from), "-to", fmt.Sprint(j.to),
-					"-digests", fmt.Sprint(*selfN), "-no-shrink")
-				<-sem
+				sem2 <- struct{}{}
+				outs[ji] = runWorker(j.gmp, "-prop", *propID, "-tier", *tier, "-seed", fmt.Sprint(*seed), "-from", "0", "-to", fmt.Sprint(*n),
+					"-stride", fmt.Sprint(jobs), "-offset", fmt.Sprint(j.offset), "-limit", "16", "-digests", "16", "-no-shrink")
+				<-sem2
 				fin <- ji
 			}(ji, j)
 		}
-		for range jobs {
+		for range sjobs {
 			<-fin
 		}
+		jobsList := sjobs
 		for ji, r := range outs {
-			gmp := jobs[ji].gmp
+			gmp := jobsList[ji].gmp
 			selfProcs++
 			if r.err != nil || r.out.Infra != "" {
 				fmt.Fprintf(os.Stderr, "INFRA: determinism self-test worker: %v %s\n", r.err, r.out.Infra)
